@@ -26,6 +26,7 @@ META = {
     "level_note": "model = propositional instance (ground goals); class findings F7 (SLG coinductive cycles) and F27 (mixed cycles, recursive) "
                   "are decided by predicates on the input; see evidence.assumptions for what is proved vs tested",
     "design_ref": "DESIGN.md §4 C10",
+    "bins": ["engine", "hist"],
     "assumptions": [
         "engine theorems are about the propositional instantiation of SolverStuff (ground and-or graphs, three-valued leaves for truncation)",
         "the theorems exclude graphs with a mixed inductive/coinductive cycle (class F27, witness rec_history_mixed_refuted)",
